@@ -1084,3 +1084,9 @@ M('c16-merge-stale-left-after-exhaustion', 'C16', "                left_exhauste
 M('c16-merge-wrong-location', 'C16', "        elif left_exhausted:\n            yield last_right, Location.RIGHTONLY", "        elif left_exhausted:\n            yield last_right, Location.LEFTONLY", 'C16.R5', U)
 M('c16-merge-right-not-advanced-on-both', 'C16', "        if not now_left or advance_both:\n            try:\n                new = next(right_iterator)", "        if not now_left:\n            try:\n                new = next(right_iterator)", 'C16.R5', U)
 T('c16-twin-initial-side', 'C16', "    if left_exhausted or (not right_exhausted and left_key(last_left) > last_right):", "    if left_exhausted or (not right_exhausted and left_key(last_left) < last_right):", U)
+
+# ------------------------------------------------------------------------------------------------ transaction premises (database.py)
+M('c05-pragma-synchronous-off', 'C05', "        cursor.execute('PRAGMA journal_mode=wal;')", "        cursor.execute('PRAGMA journal_mode=wal;')\n        cursor.execute('PRAGMA synchronous=OFF;')", 'C05.R6', D)
+M('c06-pragma-synchronous-off', 'C06', "        cursor.execute('PRAGMA journal_mode=wal;')", "        cursor.execute('PRAGMA journal_mode=wal;')\n        cursor.execute('PRAGMA synchronous=OFF;')", 'C06.R5', D)
+M('c05-no-explicit-begin', 'C05', "        conn.execute(text('BEGIN'))", "        pass", 'C05.R6', D)
+M('c04-no-explicit-begin', 'C04', "        conn.execute(text('BEGIN'))", "        pass", 'C04.Pdb', D)
